@@ -1,5 +1,6 @@
 import Sm9.Proofs.MontBasic
 import Sm9.Proofs.MontMul
+import Sm9.Proofs.MontInvert
 import Sm9.Proofs.Consts
 import Sm9.Proofs.Pow
 /-!
@@ -11,9 +12,8 @@ modulus in the SM9 range and **all** operands below it: add, sub, negate, double
 Montgomery multiplication (operand-scanning product + four REDC rows + final carry), the
 dedicated squaring schedule (= mul, unconditionally), entering / leaving Montgomery form.
 The two parameter sets satisfy the side conditions by kernel evaluation of the constants
-extracted from the source.  Still missing at limb level: `invert` (binary Euclid; its
-value-level counterpart is proved below) and `div2`'s top-bit path — decided meanwhile by
-raw-limb correspondence over the limb-boundary classes.
+extracted from the source; halving (with its top-bit path) and the binary extended Euclid
+`invert` — termination within the fuel **and** x·a ≡ R² — for every prime modulus in range.
 -/
 set_option maxRecDepth 100000
 set_option exponentiation.threshold 1024
@@ -53,6 +53,22 @@ theorem into_new {P : MontParams} (hP : P.Ok) (x : Nat) (hx : x < P.modulus) :
 theorem into_mul {P : MontParams} (hP : P.Ok) (a b : Nat) (ha : a < P.modulus) (hb : b < P.modulus) :
     Fp.into_u256 P (Fp.mul P a b) = Fp.into_u256 P a * Fp.into_u256 P b % P.modulus :=
   Fp.into_u256_mul hP a b ha hb
+/-- halving modulo m (the `set_bit(255)` carry path included) -/
+theorem div2_refines (b m : Nat) (hm : m < W256) (hm2 : W256 < 2 * m) (hodd : m % 2 = 1) (hb : b < m) :
+    U256.div2 b m < m ∧ (2 * U256.div2 b m) % m = b := U256.div2_refines b m hm hm2 hodd hb
+/-- binary extended Euclid seeded with R²: terminates and returns R²·a⁻¹ -/
+theorem invert_refines (a m r2 : Nat) (hp : Nat.Prime m) (hm : m < W256) (hm2 : W256 < 2 * m) (ha0 : 0 < a)
+    (ha : a < m) (hr : r2 < m) : ∃ x, U256.invert a m r2 = some x ∧ x < m ∧ (x * a) % m = r2 % m :=
+  U256.invert_refines a m r2 hp hm hm2 ha0 ha hr
+/-- `inverse`: `None` exactly for zero; otherwise terminates with y such that y·x = one (Montgomery form) -/
+theorem inverse_refines_q (x : Nat) (hx : x < Consts.FQ) :
+    (x = 0 → Fp.inverse paramsQ x = some none) ∧
+    (x ≠ 0 → ∃ y, Fp.inverse paramsQ x = some (some y) ∧ y < Consts.FQ ∧ Fp.mul paramsQ y x = Consts.FQ_ONE) :=
+  Fp.inverse_refines_q x hx
+theorem inverse_refines_r (x : Nat) (hx : x < Consts.FR) :
+    (x = 0 → Fp.inverse paramsR x = some none) ∧
+    (x ≠ 0 → ∃ y, Fp.inverse paramsR x = some (some y) ∧ y < Consts.FR ∧ Fp.mul paramsR y x = Consts.FR_ONE) :=
+  Fp.inverse_refines_r x hx
 /-- square-and-multiply exponentiation is exponentiation, for every exponent -/
 theorem fq_pow_eq (x : Fq) (e : Nat) : x.pow e = x ^ e := Fq.pow_eq x e
 theorem fr_pow_eq (x : Fr) (e : Nat) : x.pow e = x ^ e := Fr.pow_eq x e
